@@ -8,8 +8,9 @@ CONSTANTS
   MaxPos = 0
   NamedPool = {}
   MaxNamed = 0
+  MapPool = {}
+  MaxMap = 0
   PSplats = {}
-  NSplats = {}
   ItemSet = {"ret", "ift", "iff", "each0", "each1", "each2", "each3", "while"}
   MaxItems = 4
 INVARIANTS LawHolds LawWellFormed Emit
